@@ -7,6 +7,7 @@
 #include "kit.h"
 #include "worlds.h"
 #include "vtu11/vtu11.hpp"
+#include <zlib.h>
 
 namespace c18
 {
@@ -59,9 +60,11 @@ namespace
     unsigned dim = 3, nx = 1, ny = 1, nz = 1, comps = 0, threads = 1;
     int bounds = 0, world = 0;
     int mode = 0;        // 0 plain, 1 --filtered, 2 --by-tag, 3 both
+    int format = 0;      // vtu_output_format: 0 ASCII, 1 Base64Inline, 2 Base64Appended, 3 RawBinary, 4 RawBinaryCompressed
     double x0 = 0, x1 = 0, y0 = 0, y1 = 0, z0 = 0, z1 = 0;
   };
   const char *TYPE_NAMES[] = {"cartesian", "chunk", "annulus", "sphere"};
+  const char *FORMATS[] = {"ASCII", "Base64Inline", "Base64Appended", "RawBinary", "RawBinaryCompressed"};
 
   worlds::Opt world_opt(const GCfg &c)
   {
@@ -75,12 +78,12 @@ namespace
   std::string describe(const GCfg &c)
   {
     return JObj().str("grid_type", TYPE_NAMES[c.type]).integer("dim", c.dim).integer("n_cell_x", c.nx).integer("n_cell_y", c.ny).integer("n_cell_z", c.nz)
-           .integer("compositions", c.comps).integer("threads", c.threads).integer("world", c.world).integer("mode", c.mode)
+           .integer("compositions", c.comps).integer("threads", c.threads).integer("world", c.world).integer("mode", c.mode).str("vtu_output_format", FORMATS[c.format])
            .raw("bounds", "[" + wbgen::num(c.x0) + "," + wbgen::num(c.x1) + "," + wbgen::num(c.y0) + "," + wbgen::num(c.y1) + "," + wbgen::num(c.z0) + "," + wbgen::num(c.z1) + "]").done();
   }
   std::string grid_file(const GCfg &c)
   {
-    std::string t = "# grid written by the C18 checker\ngrid_type = " + std::string(TYPE_NAMES[c.type]) + "\ndim = " + std::to_string(c.dim) + "\ncompositions = " + std::to_string(c.comps) + "\nvtu_output_format = ASCII\n\n";
+    std::string t = "# grid written by the C18 checker\ngrid_type = " + std::string(TYPE_NAMES[c.type]) + "\ndim = " + std::to_string(c.dim) + "\ncompositions = " + std::to_string(c.comps) + "\nvtu_output_format = " + FORMATS[c.format] + "\n\n";
     t += "x_min = " + wbgen::num(c.x0) + "\nx_max = " + wbgen::num(c.x1) + "\n";
     if (c.dim == 3 || c.type == 2 || c.type == 1) t += "y_min = " + wbgen::num(c.y0) + "\ny_max = " + wbgen::num(c.y1) + "\n";
     t += "z_min = " + wbgen::num(c.z0) + "\nz_max = " + wbgen::num(c.z1) + "\n# cells\nn_cell_x = " + std::to_string(c.nx) + "\n";
@@ -116,6 +119,8 @@ namespace
     {
       // secondary coordinates: compositions, threads, output mode
       const unsigned comps[] = {0, 2, 4}, threads[] = {1, 3, 2}; const int modes[] = {0, 1, 2, 3};
+      // output format: ASCII for two thirds of the files, the four binary formats round-robin for the rest; node and cell counts run through all residues mod 3
+      c.format = (rr % 3 == 2) ? 1 + static_cast<int>((rr / 3) % 4) : 0;
       if (th)
         for (int m : modes) { c.mode = m; c.comps = comps[rr % 3]; c.threads = threads[(rr / 3) % 3]; ++rr; set_bounds(c); v.push_back(c); }
       else
@@ -452,11 +457,29 @@ namespace
       }
   }
 
-  // ---------- the ASCII file ----------
-  struct XmlArray { std::map<std::string,std::string> attr; std::vector<std::string> tokens; std::string parent; };
+  // ---------- the written file (ASCII and the four binary formats) ----------
+  struct XmlArray { std::map<std::string,std::string> attr; std::vector<std::string> tokens; std::string parent, raw; };
+  struct Appended { bool present = false; std::string encoding, data; };   // data: everything after the '_' marker
   // minimal well-formedness check (tags balanced and properly nested, attributes name="value") + extraction of DataArray contents
-  bool parse_vtu(const std::string &text, std::vector<XmlArray> &arrays, std::map<std::string,std::string> &piece, std::string &error)
+  bool parse_vtu(const std::string &text_in, std::vector<XmlArray> &arrays, std::map<std::string,std::string> &piece, std::map<std::string,std::string> &root_attr, Appended &app, std::string &error)
   {
+    // raw appended data may contain any byte: cut it out before the structure is parsed (it ends at the LAST closing tag of its element)
+    std::string text = text_in;
+    {
+      const size_t a = text.find("<AppendedData");
+      if (a != std::string::npos)
+        {
+          const size_t gt = text.find('>', a), us = text.find('_', gt == std::string::npos ? a : gt), end = text.rfind("</AppendedData>");
+          if (gt == std::string::npos || us == std::string::npos || end == std::string::npos || end < us) { error = "malformed AppendedData element"; return false; }
+          for (size_t q = gt + 1; q < us; ++q) if (!isspace(static_cast<unsigned char>(text[q]))) { error = "text before the _ marker of AppendedData"; return false; }
+          app.present = true;
+          app.data = text.substr(us + 1, end - us - 1);
+          const std::string tag = text.substr(a, gt - a);
+          const size_t e = tag.find("encoding=\"");
+          if (e != std::string::npos) app.encoding = tag.substr(e + 10, tag.find('"', e + 10) - e - 10);
+          text = text.substr(0, gt + 1) + text.substr(end);
+        }
+    }
     size_t p = 0;
     std::vector<std::string> stack;
     auto skip_ws = [&]() { while (p < text.size() && isspace(static_cast<unsigned char>(text[p]))) ++p; };
@@ -468,7 +491,7 @@ namespace
       {
         const size_t lt = text.find('<', p);
         const std::string chunk = text.substr(p, (lt == std::string::npos ? text.size() : lt) - p);
-        if (!stack.empty() && stack.back() == "DataArray") { std::istringstream b(chunk); std::string t; while (b >> t) arrays.back().tokens.push_back(t); }
+        if (!stack.empty() && stack.back() == "DataArray") { arrays.back().raw += chunk; std::istringstream b(chunk); std::string t; while (b >> t) arrays.back().tokens.push_back(t); }
         else for (char ch : chunk) if (!isspace(static_cast<unsigned char>(ch))) { error = "text outside a DataArray element"; return false; }
         if (lt == std::string::npos) break;
         if (root_closed) { error = "content after the root element"; return false; }
@@ -506,6 +529,7 @@ namespace
             q = endq + 1;
           }
         if (stack.empty() && name != "VTKFile") { error = "root element is not VTKFile"; return false; }
+        if (stack.empty()) root_attr = attr;
         if (name == "Piece") piece = attr;
         if (name == "DataArray") { XmlArray a; a.attr = attr; a.parent = stack.empty() ? "" : stack.back(); arrays.push_back(a); }
         if (!selfclose) stack.push_back(name);
@@ -514,51 +538,162 @@ namespace
     return true;
   }
 
+  bool b64_decode(const std::string &in, std::string &out)
+  {
+    static int T[256]; static bool init = false;
+    if (!init) { for (int i = 0; i < 256; ++i) T[i] = -1; const char *A = "ABCDEFGHIJKLMNOPQRSTUVWXYZabcdefghijklmnopqrstuvwxyz0123456789+/"; for (int i = 0; i < 64; ++i) T[static_cast<unsigned char>(A[i])] = i; init = true; }
+    if (in.size() % 4 != 0) return false;
+    out.clear();
+    for (size_t i = 0; i < in.size(); i += 4)
+      {
+        int v[4]; int pad = 0;
+        for (int k = 0; k < 4; ++k)
+          {
+            const unsigned char ch = static_cast<unsigned char>(in[i+static_cast<size_t>(k)]);
+            if (ch == '=') { v[k] = 0; ++pad; if (i + 4 != in.size() || k < 2) return false; }
+            else { if (T[ch] < 0 || pad) return false; v[k] = T[ch]; }
+          }
+        const unsigned n = static_cast<unsigned>(v[0] << 18 | v[1] << 12 | v[2] << 6 | v[3]);
+        out += static_cast<char>((n >> 16) & 255);
+        if (pad < 2) out += static_cast<char>((n >> 8) & 255);
+        if (pad < 1) out += static_cast<char>(n & 255);
+      }
+    return true;
+  }
+  uint64_t rd64(const std::string &b, size_t at) { uint64_t v = 0; std::memcpy(&v, b.data() + at, 8); return v; }
+
+  // the raw bytes of one DataArray, read the way a VTK reader would (format / offset attributes, header_type UInt64)
+  bool array_bytes(const XmlArray &a, const Appended &app, const std::map<std::string,std::string> &root, std::string &bytes, std::string &error)
+  {
+    const std::string format = a.attr.count("format") ? a.attr.at("format") : "";
+    const bool compressed = root.count("compressor") > 0;
+    if (root.count("header_type") == 0 || root.at("header_type") != "UInt64") { error = "header_type is not UInt64"; return false; }
+    if (format == "binary")
+      {
+        // inline base64: an 8 byte length (encoded on its own: 12 characters) followed by the encoded data
+        std::string t;
+        for (char ch : a.raw) if (!isspace(static_cast<unsigned char>(ch))) t += ch;
+        std::string h;
+        if (t.size() < 12 || !b64_decode(t.substr(0, 12), h) || h.size() != 8) { error = "inline binary array without a valid length header"; return false; }
+        const uint64_t n = rd64(h, 0);
+        if (!b64_decode(t.substr(12), bytes) || bytes.size() != n) { error = "inline binary array: decoded length differs from its header"; return false; }
+        return true;
+      }
+    if (format != "appended") { error = "unknown DataArray format '" + format + "'"; return false; }
+    if (!app.present || a.attr.count("offset") == 0) { error = "appended array without AppendedData / offset"; return false; }
+    const size_t off = static_cast<size_t>(strtoull(a.attr.at("offset").c_str(), nullptr, 10));
+    if (app.encoding == "base64")
+      {
+        if (off + 12 > app.data.size()) { error = "offset beyond the appended data"; return false; }
+        std::string h;
+        if (!b64_decode(app.data.substr(off, 12), h) || h.size() < 8) { error = "appended base64 block without a valid header at its offset"; return false; }
+        const uint64_t n = rd64(h, 0);
+        const size_t enc = ((n + 8 + 2) / 3) * 4;
+        std::string all;
+        if (off + enc > app.data.size() || !b64_decode(app.data.substr(off, enc), all) || all.size() != n + 8) { error = "appended base64 block: cannot decode the announced number of bytes at the announced offset"; return false; }
+        bytes = all.substr(8);
+        return true;
+      }
+    if (app.encoding != "raw") { error = "unknown AppendedData encoding '" + app.encoding + "'"; return false; }
+    if (!compressed)
+      {
+        if (off + 8 > app.data.size()) { error = "offset beyond the appended data"; return false; }
+        const uint64_t n = rd64(app.data, off);
+        if (off + 8 + n > app.data.size()) { error = "appended raw block longer than the file"; return false; }
+        bytes = app.data.substr(off + 8, n);
+        return true;
+      }
+    // vtkZLibDataCompressor: [#blocks][block size][last block size][compressed size per block] then the blocks
+    if (off + 24 > app.data.size()) { error = "offset beyond the appended data"; return false; }
+    const uint64_t nb = rd64(app.data, off), bs = rd64(app.data, off + 8), last = rd64(app.data, off + 16);
+    if (nb > (1u << 20) || off + 24 + 8 * nb > app.data.size()) { error = "implausible block count in a compressed block header"; return false; }
+    size_t at = off + 24 + 8 * nb;
+    bytes.clear();
+    for (uint64_t b = 0; b < nb; ++b)
+      {
+        const uint64_t cs = rd64(app.data, off + 24 + 8 * b);
+        const uint64_t want = (b + 1 == nb) ? last : bs;
+        if (at + cs > app.data.size()) { error = "compressed block longer than the file"; return false; }
+        std::string blk(want, '\0');
+        uLongf got = static_cast<uLongf>(want);
+        if (uncompress(reinterpret_cast<Bytef *>(&blk[0]), &got, reinterpret_cast<const Bytef *>(app.data.data() + at), static_cast<uLong>(cs)) != Z_OK || got != want) { error = "zlib block does not inflate to the announced size"; return false; }
+        bytes += blk;
+        at += cs;
+      }
+    return true;
+  }
+
   void check_file(const Captured &m, const std::string &path, const Reporter &fail, Ctx &ctx)
   {
-    static const int c_tok = Ctx::counter_id("file_tokens_compared");
+    static const int c_tok = Ctx::counter_id("file_tokens_compared"), c_bin = Ctx::counter_id("binary_file_values_compared");
     std::ifstream f(path, std::ios::binary);
     if (!f) { fail("file/missing", "the output file was not written"); return; }
     std::stringstream ss; ss << f.rdbuf();
     const std::string text = ss.str();
     std::vector<XmlArray> arrays;
-    std::map<std::string,std::string> piece;
+    std::map<std::string,std::string> piece, root;
+    Appended app;
     std::string error;
-    if (!parse_vtu(text, arrays, piece, error)) { fail("file/not-well-formed", "the VTU file is not well-formed XML: " + error); return; }
+    if (!parse_vtu(text, arrays, piece, root, app, error)) { fail("file/not-well-formed", "the VTU file is not well-formed XML: " + error); return; }
     const size_t np = m.points.size() / 3, nc = m.types.size();
     if (piece["NumberOfPoints"] != std::to_string(np) || piece["NumberOfCells"] != std::to_string(nc))
       { fail("file/piece-counts", "NumberOfPoints / NumberOfCells of the Piece element differ from the mesh", JObj().str("NumberOfPoints", piece["NumberOfPoints"]).str("NumberOfCells", piece["NumberOfCells"]).done()); return; }
+    const bool ascii = m.mode == "ASCII";
     auto render = [](double v) { char b[64]; snprintf(b, sizeof b, "%.6g", v); return std::string(b); };
     std::set<std::string> seen_names;
     for (auto &a : arrays)
       {
-        std::vector<std::string> want;
+        // what this array must hold: doubles, 64-bit integers or 8-bit cell types
+        const std::vector<double> *dd = nullptr; const std::vector<long long> *ii = nullptr; const std::vector<int> *tt = nullptr;
         const std::string name = a.attr.count("Name") ? a.attr["Name"] : "";
         std::string label = name;
-        if (a.parent == "Points") { for (double v : m.points) want.push_back(render(v)); label = "Points"; if (a.attr["NumberOfComponents"] != "3") { fail("file/points-components", "Points array does not declare 3 components"); return; } }
-        else if (a.parent == "Cells" && name == "connectivity") for (auto v : m.conn) want.push_back(std::to_string(v));
-        else if (a.parent == "Cells" && name == "offsets") for (auto v : m.offsets) want.push_back(std::to_string(v));
-        else if (a.parent == "Cells" && name == "types") for (auto v : m.types) want.push_back(std::to_string(v));
+        if (a.parent == "Points") { dd = &m.points; label = "Points"; if (a.attr["NumberOfComponents"] != "3") { fail("file/points-components", "Points array does not declare 3 components"); return; } }
+        else if (a.parent == "Cells" && name == "connectivity") ii = &m.conn;
+        else if (a.parent == "Cells" && name == "offsets") ii = &m.offsets;
+        else if (a.parent == "Cells" && name == "types") tt = &m.types;
         else if (a.parent == "PointData")
           {
             size_t d = 0;
             while (d < m.names.size() && m.names[d] != name) ++d;
             if (d == m.names.size()) { fail("file/unknown-data-array", "the file contains a data array that was not requested: " + name); return; }
-            for (double v : m.data[d]) want.push_back(render(v));
+            dd = &m.data[d];
             if ((m.ncomp[d] > 1) != (a.attr.count("NumberOfComponents") == 1) || (m.ncomp[d] > 1 && a.attr["NumberOfComponents"] != std::to_string(m.ncomp[d])))
               { fail("file/components", "NumberOfComponents of a data array is wrong: " + name); return; }
           }
         else { fail("file/unexpected-array", "unexpected DataArray '" + name + "' under " + a.parent); return; }
-        if (a.attr["format"] != "ascii") { fail("file/format", "ASCII output requested but a data array has format " + a.attr["format"]); return; }
+        const std::string want_type = dd ? "Float64" : ii ? "Int64" : "Int8";
+        if (a.attr["type"] != want_type) { fail("file/array-type", "DataArray '" + label + "' declares type " + a.attr["type"] + " instead of " + want_type); return; }
         seen_names.insert(a.parent + "/" + label);
-        ctx.count(c_tok, want.size());
-        if (a.tokens != want)
+        const std::string lab = label.substr(0, label.find(' '));
+        if (ascii)
           {
-            size_t k = 0;
-            while (k < want.size() && k < a.tokens.size() && want[k] == a.tokens[k]) ++k;
-            fail("file/array-content/" + label.substr(0, label.find(' ')), "the numbers written to the file are not the rendering of the arrays handed to the writer",
-                 JObj().str("array", label).integer("tokens_in_file", static_cast<long long>(a.tokens.size())).integer("expected_tokens", static_cast<long long>(want.size())).integer("first_difference", static_cast<long long>(k)).done());
-            return;
+            if (a.attr["format"] != "ascii") { fail("file/format", "ASCII output requested but a data array has format " + a.attr["format"]); return; }
+            std::vector<std::string> want;
+            if (dd) for (double v : *dd) want.push_back(render(v));
+            if (ii) for (auto v : *ii) want.push_back(std::to_string(v));
+            if (tt) for (auto v : *tt) want.push_back(std::to_string(v));
+            ctx.count(c_tok, want.size());
+            if (a.tokens != want)
+              {
+                size_t k = 0;
+                while (k < want.size() && k < a.tokens.size() && want[k] == a.tokens[k]) ++k;
+                fail("file/array-content/" + lab, "the numbers written to the file are not the rendering of the arrays handed to the writer",
+                     JObj().str("array", label).integer("tokens_in_file", static_cast<long long>(a.tokens.size())).integer("expected_tokens", static_cast<long long>(want.size())).integer("first_difference", static_cast<long long>(k)).done());
+                return;
+              }
+          }
+        else
+          {
+            if (a.attr["format"] == "ascii") { fail("file/format", std::string("binary output (") + m.mode + ") requested but a data array is ascii"); return; }
+            std::string bytes, err;
+            if (!array_bytes(a, app, root, bytes, err)) { fail("file/binary-array-unreadable/" + lab, "a reader following the format / offset / header attributes cannot recover the array: " + err, JObj().str("array", label).str("format", m.mode).done()); return; }
+            std::string want;
+            if (dd) want.assign(reinterpret_cast<const char *>(dd->data()), dd->size() * 8);
+            if (ii) want.assign(reinterpret_cast<const char *>(ii->data()), ii->size() * 8);
+            if (tt) for (int v : *tt) want += static_cast<char>(v);
+            ctx.count(c_bin, dd ? dd->size() : ii ? ii->size() : tt->size());
+            if (bytes != want)
+              { fail("file/binary-array-content/" + lab, "the bytes recovered from the file are not the array handed to the writer", JObj().str("array", label).str("format", m.mode).integer("bytes_in_file", static_cast<long long>(bytes.size())).integer("expected_bytes", static_cast<long long>(want.size())).done()); return; }
           }
       }
     if (seen_names.size() != 4 + m.names.size()) { fail("file/missing-array", "the file lacks one of Points / connectivity / offsets / types / the requested point data arrays", JObj().integer("arrays_found", static_cast<long long>(seen_names.size())).done()); return; }
@@ -704,13 +839,13 @@ int main(int argc, char **argv)
   spec.rule = "full product of grid type x dim x cell counts (n_cell_x, n_cell_y, n_cell_z each in 1..3|4) x 2 bound sets x 2 worlds, with compositions {0,2,4}, threads {1,2,3} and output mode "
               "{plain, --filtered, --by-tag, both} assigned round-robin (quick) or all four modes per tuple (thorough), plus finer grids; one in-process run of the real gwb-grid main() per "
               "configuration. non-trivial: at least one node lies inside a feature (tag >= 0)";
-  spec.assumptions = {"the arrays are captured at the call of vtu11::writeVtu (full precision) and the written ASCII file is parsed and compared with their %.6g rendering",
+  spec.assumptions = {"the arrays are captured at the call of vtu11::writeVtu (full precision); the written file is parsed back: ASCII files are compared with the %.6g rendering of the arrays, Base64Inline / Base64Appended / RawBinary / RawBinaryCompressed files are decoded the way a VTK reader does (format, offset and header attributes, zlib blocks) and compared byte for byte",
                       "requested mesh: cartesian and chunk grids must be exactly the (n+1)-point lattice between the bounds (chunk: longitude, latitude, radius mapped to cartesian), cells the lattice cells in valid VTK node order; "
                       "annulus: closed ring lattice whose tangential count matches the radial spacing; sphere: per radial level a closed surface of 12 n^2 quads (every edge shared by two cells, Euler characteristic 2, total solid angle 4 pi) extruded radially",
                       "tag rule of --filtered / --by-tag: a cell is kept iff the highest tag among its nodes is selected (--filtered: every tag except 'mantle layer'; --by-tag N: tag N), as implemented and described by the tool's help text",
                       "node values are compared bit-for-bit with single-property World::properties calls on a native world built from the same file"
                      };
-  spec.counters = {"nodes_checked", "cells_checked", "nodes_inside_features", "node_values_compared", "filtered_meshes_checked", "filtered_cells", "file_tokens_compared"};
+  spec.counters = {"nodes_checked", "cells_checked", "nodes_inside_features", "node_values_compared", "filtered_meshes_checked", "filtered_cells", "file_tokens_compared", "binary_file_values_compared"};
   spec.quick_deadline_s = 240;
   spec.thorough_deadline_s = 1200;
   return driver(argc, argv, spec, [](const std::string &tier)
